@@ -228,7 +228,7 @@ pub fn run(args: &Args) {
     let j = J::obj()
         .set("property", J::s("C13"))
         .set("counters", c.to_json())
-        .set("sigs", J::Arr(sigs.iter().map(|s| J::s(format!("{s:x}"))).collect()))
+        .set("sigs", J::Arr(sigs.iter().take(if small { 24 } else { usize::MAX }).map(|s| J::s(format!("{s:x}"))).collect()))
         .set("samples", J::Arr(samples))
         .set("rule", J::s("case = one ConcurrentNodeIds::new(used) shared by T threads making N requests each under seeded yields/spins/sleeps at the statement boundaries of next(); after the threads join all ids must be pairwise distinct, outside used, recycled ids exhausted before fresh ones, fresh ids contiguous; non-trivial+distinct = distinct (who-got-which-id prefix, T, N, |used|) interleaving signatures"))
         .set("required", J::Arr(["ids_stress_runs", "ids_requested", "ids_runs_crossing_recycled_to_fresh"].iter().map(|s| J::s(*s)).collect()))
